@@ -146,6 +146,7 @@ func c14ReaderErr(kind int) error {
 	}
 	return errC14R
 }
+
 var errC14W = errors.New("c14 injected writer failure")
 
 // c14Exec runs one case; returns "" if the property held, else what failed.
